@@ -297,7 +297,7 @@ def inverse_part(draw, nsol, true, user_phases, present, flavour, decoy_pool):
         # nearly exact analyses; a global uncertainty of exactly 0 is not generated: every model then sits on the razor edge of
         # feasibility, where the pinned tree reports models from LPs it found infeasible (known finding F1, silent) - zero limits
         # of single elements (-balances) are generated
-        unc = [draw(cg.logu(1e-4, 2e-3, 2))]
+        unc = [draw(cg.logu(1e-3, 5e-3, 2))]
     inphase = set()
     for p, _, _ in phases:
         inphase |= set(phase_elements(p, user_phases))
@@ -326,10 +326,14 @@ def inverse_part(draw, nsol, true, user_phases, present, flavour, decoy_pool):
         if draw(W([(3, False), (1, True)])):
             balances.append(["Alkalinity", [draw(st.sampled_from([0.02, 0.1, 1.0, -1e-5, -1e-4, 0.5]))]])
     has_water = "H2O(g)" in true
+    # a tolerance above the default only with uncertainty limits that stay far above it (manual: "tol should not be too large or
+    # significantly different concentrations will be treated as equal"; limits below tol are taken as zero)
+    allu = [u for u in unc if u > 0] + [u for b, us in balances if b != "pH" for u in us if u > 0]
+    coarse_ok = umode != "zero" and (not allu or min(allu) >= 0.01)
     inv = {"phases": phases, "unc": unc, "balances": balances,
            "range": draw(W([(3, None), (3, ""), (1, 2000.0), (1, 500.0), (1, 1e5)])),
            "minimal": draw(W([(2, False), (1, True)])),
-           "tolerance": draw(W([(4, None), (1, 1e-9), (1, 1e-8)])),
+           "tolerance": draw(W([(4, None), (1, 1e-9), (1, 1e-8)])) if coarse_ok else None,
            "mineral_water": draw(W([(3, None), (1, True), (1, False)])) if not has_water else draw(W([(3, None), (1, True)])),
            "u_water": draw(W([(5, None), (1, 0.5), (1, 0.01)])),
            "force_solutions": draw(W([(4, None), (1, [True]), (1, [True, False]), (1, [False, True, True])]))}
